@@ -242,6 +242,16 @@ def StX.erase (s : StX σ α β) : St σ α β :=
   { el := s.el, nCount := s.nCount, bufIn := s.bufIn,
     bufOut := s.bufOut.flatMap (fun p => match p with | .done r => r | .gen => []) }
 
+/-! ## `__init__` with a `bufsize` that is not an `int` -/
+
+/-- `FillRequest.__init__` for any number `bufsize`: `bufsize` is `int(bufsize)`, `frac` says
+`bufsize != int(bufsize)` — the first half of the last test (adapters.py:395), reached only when the earlier
+tests pass; `self.bufsize = int(bufsize)` -/
+def mkFillRequestF (caps : Caps) (bufsize : Int) (frac : Bool) (reset : Option Bool) (bi bo yor : Bool) :
+    Except InitErr Cfg :=
+  -- a non-integral `bufsize` fails the last test like a `bufsize < 1` does
+  mkFillRequest caps (if frac then 0 else bufsize) reset bi bo yor
+
 /-! ## specification-side definitions (evaluated by the driver, used by `Lemmas/C16X.lean`, `Props/C16X.lean`) -/
 
 /-- no entry of `_buffer_out` is a generator object -/
